@@ -25,6 +25,11 @@ class Thrown(Exception):
     """the interpreted function threw"""
 
 
+class Goto(Exception):
+    def __init__(self, label):
+        self.label = label
+
+
 class Closure:
     def __init__(self, node, env, this):
         self.node = node
@@ -46,7 +51,7 @@ class Evaluator:
         if f in self.hooks:
             return self.hooks[f]
         for k, v in self.hooks.items():
-            if k.endswith("*") and f.startswith(k[:-1]):
+            if k.endswith("*") and not k.endswith("operator*") and f.startswith(k[:-1]):
                 return v
         return None
 
@@ -97,8 +102,36 @@ class Evaluator:
             return
         k = s.get("k")
         if k == "block":
-            for c in s["s"]:
-                self.block(c, env, this)
+            stmts = s["s"]
+            i = 0
+            while i < len(stmts):
+                try:
+                    self.block(stmts[i], env, this)
+                    i += 1
+                except Goto as g:
+                    # a goto to a label of this very block resumes here; otherwise it keeps propagating outwards
+                    j = [n for n, st in enumerate(stmts) if isinstance(st, dict) and st.get("k") == "label" and st.get("n") == g.label]
+                    if not j:
+                        raise
+                    i = j[0]
+        elif k == "label":
+            self.block(s.get("sub"), env, this)
+        elif k == "goto":
+            raise Goto(s["label"])
+        elif k == "do":
+            n = 0
+            while True:
+                try:
+                    self.block(s["body"], env, this)
+                except Break:
+                    break
+                except Continue:
+                    pass
+                if not self.truth(self.eval(s["c"], env, this)):
+                    break
+                n += 1
+                if n > 10000:
+                    raise Broken("loop does not terminate on the abstract domain")
         elif k == "decl":
             for v in s["vars"]:
                 env[v["id"]] = self.eval(v.get("init"), env, this) if v.get("init") is not None else None
